@@ -410,6 +410,10 @@ V("f-marg-min-same", "fire", ["C18"], PO, "                    ranks[new_world] 
 V("f-facts-max-values", "fire", ["C16"], PO, "            next_index = max(conditionals.keys(), default=0) + 1\n", "            next_index = max(conditionals.values(), default=0) + 1\n")
 V("f-lexz3-ext-same-optimizer", "fire", ["C07"], LZ, "                opt_v, opt_f, len(self.epistemic_state[\"partition\"]) - 2, query_z3\n", "                opt_f, opt_f, len(self.epistemic_state[\"partition\"]) - 2, query_z3\n")
 V("f-pent-key-min-plain", "fire", ["C01", "C12"], PE, "conditionals[min(conditionals, default=1) - 1] = falsified_query", "conditionals[min(conditionals, default=1)] = falsified_query")
+V("f-cnf-clause-leaks", "fire", ["C15"], TS, "        cnf = []\n        for expr in goal:\n            literals = expr.children() if z3.is_or(expr) else [expr]\n            clause = []\n",
+  "        cnf = []\n        clause = []\n        for expr in goal:\n            literals = expr.children() if z3.is_or(expr) else [expr]\n", note="the literals of one goal formula leak into the clauses of the next")
+V("s-cnf-for-else", "silent", ["C15", "C03", "C05"], TS, "                if value is None:\n                    clause.append(self.expr_to_signed_id(literal))\n                # a false literal contributes nothing\n            if satisfied:\n                continue\n",
+  "                if value is None:\n                    clause.append(self.expr_to_signed_id(literal))\n                # a false literal contributes nothing\n            else:\n                satisfied = False\n            if satisfied:\n                continue\n", note="for-else restating the flag")
 
 
 def main():
